@@ -197,6 +197,20 @@ class Exec(object):
 
     # -- one action -----------------------------------------------------------------------------------------
     def do(self, a):
+        # case['limit']: DBusMessage._maxMsgLen while the application calls (callRemote / getRemoteObject build -
+        # and marshal - the MethodCallMessage there); everywhere else the class keeps its own 2**27
+        lim = self.case.get('limit')
+        if lim is None or a[0] not in (1, 2):
+            return self._do(a)
+        M = self.net.message.DBusMessage
+        old = M._maxMsgLen
+        M._maxMsgLen = lim
+        try:
+            return self._do(a)
+        finally:
+            M._maxMsgLen = old
+
+    def _do(self, a):
         kind = a[0]
         E = self.E
         if kind == 0:
@@ -354,11 +368,12 @@ def model_line(case):
         per.setdefault(c, []).append([path, [ci, nc]])
     objs = [[c, per[c]] for c in sorted(per)]
     sched = [[0, 1, s(PROPS), [[s(m), s(i), s(o)] for m, i, o in PROPS_DECL], 0]] + [action_sexp(a) for a in case['sched']]
-    return '(11 %d %s %d %d %s %s %s %s %s)' % (
+    return '(11 %d %s %d %d %s %s %s %s %s%s)' % (
         case['k'], common.dump([0] * case['k']), SERIAL0, FUEL,
         common.dump([[c, s(n), f] for c, n, f in case['names']]),
         common.dump(mcls), common.dump(objs),
-        common.dump([[b[0], beh_sexp(b[1])] for b in case['behs']]), common.dump(sched))
+        common.dump([[b[0], beh_sexp(b[1])] for b in case['behs']]), common.dump(sched),
+        '' if case.get('limit') is None else ' %d' % case['limit'])
 
 
 def unopt(x):
@@ -1205,6 +1220,11 @@ def directed(rng):
                 scn.behs[fid] = [0, [3, b'x']]
             elif len(tout) == 1 and mc.show(tout[0])[0] in 'sog':
                 scn.behs[fid] = [0, [0, 7]]
+            elif len(tout) >= 2:
+                # None for SEVERAL declared values is outside the validated domain of Model/Marshal.v: the real
+                # marshal() zips signature and values, writes the first value only under the full signature, and the
+                # bus drops the exporter's connection on the malformed return (reported as a finding; not C11's subject)
+                pass
             else:
                 scn.behs[fid] = [0, [10]] if tout else [0, [5, [[10]]]]
             acts = [good]
@@ -1219,6 +1239,35 @@ def directed(rng):
         case.pop('expect', None)
         cases.append(case)
     return cases
+
+
+def size_limit_cases(rng):
+    """DBusMessage._maxMsgLen lowered on the caller's side (Model/System.v: g_limit): the request exactly at the
+    limit, one byte below, one above, and somewhere else.  Correspondence only - a call refused for its size is what
+    the code is meant to do, not a broken promise."""
+    import copy
+    scn = scenario_one_caller(rng, rng.choice([1, 2]))
+    base = dict(random_schedule(scn, rng))
+    base.pop('expect', None)
+    ex = Exec(base)
+    size = None
+    for a in base['sched']:
+        before = {i: len(ex.net.queue(('u', i))) for i in range(1, ex.k + 1)}
+        ex.do(a)
+        if a[0] == 2:
+            n = len(ex.net.queue(('u', a[1]))) - before[a[1]]
+            if n > 0:
+                size = n
+                break
+    if size is None:
+        return []
+    out = []
+    for lim in (size - 1, size, size + 1, rng.randrange(16, size + 40)):
+        c = copy.deepcopy(base)
+        c['limit'] = lim
+        c['kind'] = 'size-limit'
+        out.append(c)
+    return out
 
 
 def gen_cases(ctx, res):
@@ -1254,6 +1303,8 @@ def gen_cases(ctx, res):
     res.extra['exhaustive_complete'] = bool(complete)
     for _ in range(ctx.n(6, 30)):
         cases += directed(rng)
+    for _ in range(ctx.n(25, 150)):
+        cases += size_limit_cases(rng)
     for _ in range(ctx.n(1500, 12000)):
         cases.append(random_schedule(scenario_random(rng), rng))
     return cases
